@@ -125,6 +125,16 @@ def bounded(tier, seed):
                     run_history(col, kind, factory, h, mode)
                     n += len(h)
                 col.nontrivial.add((kind, q, mode))
+        # hand-picked histories: (1) a file-name step and a state-reading command after the parent was cached (the evaluator writes
+        # query / file name / media type into the state it got from the cache); (2) an action with one empty argument and the same
+        # action without arguments, in both orders (two different queries, two different keys)
+        for h in ([["eval", "one"], ["eval", "one/x.txt"], ["eval", "one/st"], ["eval", "one/add-1"]],
+                  [["eval", "hello"], ["eval", "hello/out.json"], ["eval", "hello/st"]],
+                  [["eval", "hello-/cat"], ["eval", "hello/cat"]], [["eval", "hello/cat"], ["eval", "hello-/cat"]],
+                  [["eval", "one/cat-"], ["eval", "one/cat"], ["eval", "one/cat-/cat"], ["eval", "one/cat/cat"]]):
+            for mode in modes:
+                run_history(col, kind, factory, h, mode)
+                n += len(h)
         # cross-target histories: evaluations of different targets share keys ("one", "one/add-2", ...)
         for r in range(2 if tier == "quick" else 12):
             h = [rnd.choice(M.related_ops(rnd.choice(targets))) for _ in range(12)]
